@@ -6,7 +6,7 @@
                    each witness, the verification mode, the trust root
      Start(s)      light.NewClient on an empty store (initializeWithTrustOptions +
                    compareFirstHeaderWithWitnesses) with reply schedule s
-     Verify(h, s)  Client.VerifyLightBlockAtHeight(h, now) with reply schedule s
+     VerifyCall(h, s)  Client.VerifyLightBlockAtHeight(h, now) with reply schedule s
      UpdateStep(s) Client.Update(now)
      Tick          local time moves past the expiry of the early headers
 
@@ -20,7 +20,7 @@ EXTENDS TMLight, TMLightWorld
 CONSTANTS
   H,               \* chain height
   NWit,            \* number of witnesses
-  MaxCalls,        \* Verify calls per behaviour
+  MaxCalls,        \* Verify/Update calls per behaviour
   PrimaryPersonas, WitnessPersonas,   \* sets of persona names
   Modes,           \* subset of {"skip", "seq"}
   Roots,           \* trust-root heights
@@ -33,8 +33,10 @@ vars == <<scen, cl, cnt, now, ncalls, started, act>>
 WitNames == [i \in 1..NWit |-> "w" \o ToString(i)]
 ProvNames == {"p"} \cup Range(WitNames)
 Perms == {s \in [1..NWit -> Range(WitNames)] : \A i, j \in 1..NWit : i # j => s[i] # s[j]}
-\* with the shipped double send the same witness can be received twice in a row: nothing
-\* new for permutations (a witness' values are adjacent in the channel), see TMLight!Channel
+\* In the repaired code every witness sends exactly one value, so permutations are all
+\* orders.  Under Weak_MismatchAlsoCountsAsMatch (the shipped double send) only the orders
+\* in which a witness' two values are adjacent in the channel are modelled (TMLight!Channel)
+\* -- the ones a gate-forced replay can produce, and enough to refute the properties.
 
 Cfg(mode) == [period |-> 100, drift |-> 5, num |-> 1, den |-> 3, mode |-> mode]
 \* constant-level tables (evaluated once by TLC)
